@@ -556,6 +556,8 @@ func runC13(c *Ctx) {
 	checkForgetsAfterRemoval(c, "R14.2")
 	// the instance whose comments are scanned is the merged one: a pull replaces the loaded instance (shared with C02/C11)
 	checkCacheMergeFold(c, "R2.6")
+	checkSingleInstance(c, newLockWorld(c.W))
+	checkRebuildAndCLIRemoval(c)
 	// R13.3
 	for _, t := range []string{"Id", "CombinedId"} {
 		fn := w.Method("entity", t, "HasPrefix")
